@@ -410,7 +410,10 @@ where
         frame: LinkFrame,
     ) -> Result<Running, SessionInnerError> {
         match self.session.local_state() {
-            SessionState::Mapped => {}
+            // The drain when the remote ends the session runs while the state is
+            // `EndReceived`; the frames the links had already queued are flushed
+            // before the end is answered.
+            SessionState::Mapped | SessionState::EndReceived => {}
             _ => return Err(SessionInnerError::IllegalState), // End session with illegal state
         }
 
